@@ -52,7 +52,11 @@ def computeTweakedPrivkey (onlineKey summedKey : Bytes) : Option Nat :=
   | none => none
   | some tweak =>
     let (sonline, ov2) := Sc.setB32 onlineKey
-    if ov2 ∨ sonline = 0 then none else some (Sc.add (Sc.mul sk tweak) sonline)
+    if ov2 ∨ sonline = 0 then none else
+    -- finding F2 (fixed in /repo): a tweaked secret of zero makes the signer's ring key the point at
+    -- infinity, for which no verifying signature exists; signing must refuse instead of returning 1
+    let r := Sc.add (Sc.mul sk tweak) sonline
+    if r = 0 then none else some r
 
 /-- ring key `online + H(offline + sub)·(offline + sub)` -/
 def ringKey (online offline sub : Pt) : Pt :=
